@@ -114,6 +114,11 @@ func tryFastCompare(expression string) *fastCompare {
 		if err != nil {
 			return nil
 		}
+		// float64 is exact only below 2^53 (a larger literal may already have been rounded): there the shortcut could decide
+		// differently from expr-lang's integer comparison, so leave it to expr-lang.
+		if n >= maxExactFloat || n <= -maxExactFloat {
+			return nil
+		}
 		return &fastCompare{field: m[1], op: m[2], numLit: n}
 	}
 	if m := fastFieldOpStr.FindStringSubmatch(expression); m != nil {
@@ -241,20 +246,25 @@ func toFloat64Fast(v any) (float64, bool) {
 	case float32:
 		return float64(x), true
 	case int:
-		return float64(x), true
+		return float64(x), x < maxExactFloat && x > -maxExactFloat
 	case int64:
-		return float64(x), true
+		return float64(x), x < maxExactFloat && x > -maxExactFloat
 	case int32:
 		return float64(x), true
 	case uint:
-		return float64(x), true
+		return float64(x), x < maxExactFloat
 	case uint64:
-		return float64(x), true
+		return float64(x), x < maxExactFloat
 	case uint32:
 		return float64(x), true
 	}
 	return 0, false
 }
+
+// maxExactFloat is 2^53: integers of larger magnitude are not all representable
+// as float64, so the fast path does not handle them (ok == false falls back to
+// expr-lang, which compares integers exactly).
+const maxExactFloat = 1 << 53
 
 func compareNum(a float64, op string, b float64) bool {
 	switch op {
